@@ -61,8 +61,14 @@ def out_obj(k, p, v, j=0):
 def fbytes(n, k, p, v, out, t=None, isfloat=False, elem=None):
     b = [pat(k, p, j, v, out) for j in range(n)]
     if isfloat and elem:
-        for e in range(0, n, elem):
-            b[e + elem - 1] &= 0x3F
+        for e in range(0, n - elem + 1, elem):
+            if v % 3 == 2 and elem in (4, 8):
+                # a signalling NaN with a payload: floating-point values travel as their bit patterns
+                b[e + elem - 1] = (b[e + elem - 1] & 0x80) | 0x7F
+                b[e + elem - 2] = ((b[e + elem - 2] & 0x3F) | 0x80) if elem == 4 else ((b[e + elem - 2] & 0x07) | 0xF0)
+                b[e] |= 1
+            else:
+                b[e + elem - 1] &= 0x3F
     return b
 
 
@@ -83,7 +89,10 @@ static int g_val = 0, g_status = 0, g_entered = 0;
 static void hexp(const char *tag, const void *p, size_t n) { const uint8_t *b = p; printf(" %s=", tag); for (size_t i = 0; i < n; i++) printf("%02x", b[i]); }
 static void fillp(void *p, size_t n, int k, int pi, int v, int out, size_t elem, int isf) {
   uint8_t *b = p; for (size_t j = 0; j < n; j++) b[j] = (uint8_t)(17 * k + 31 * pi + 7 * (int)j + 13 * v + (out ? 101 : 1));
-  if (isf && elem) for (size_t e = 0; e + elem <= n; e += elem) b[e + elem - 1] &= 0x3F; }
+  if (isf && elem) for (size_t e = 0; e + elem <= n; e += elem) {
+    if (v % 3 == 2 && (elem == 4 || elem == 8)) { b[e + elem - 1] = (uint8_t)((b[e + elem - 1] & 0x80) | 0x7F);
+      b[e + elem - 2] = (uint8_t)(elem == 4 ? ((b[e + elem - 2] & 0x3F) | 0x80) : ((b[e + elem - 2] & 0x07) | 0xF0)); b[e] |= 1; }
+    else b[e + elem - 1] &= 0x3F; } }
 typedef struct { int id; int refs; } CObj;
 static CObj pool[64];
 static int32_t cobj_invoke(ObjectCxt h, ObjectOp op, ObjectArg *a, ObjectCounts k) {
